@@ -58,6 +58,13 @@ func raisingStore(fn *ssa.Function, st *ssa.Store, obj ssa.Value, field string) 
 				return o1, "max"
 			}
 		}
+		// obj.f = max(obj.f, v) for a plain value v
+		if f1 == field && o1 == obj && o2 == nil {
+			return nil, "maxval"
+		}
+		if f2 == field && o2 == obj && o1 == nil {
+			return nil, "maxval"
+		}
 	}
 	// guarded assignment: every path to the store passes [obj.f < v] with v the stored value
 	target := ssa.Instruction(st)
@@ -104,12 +111,21 @@ func (c *Ctx) ImportRules(prop string) {
 		_, f, _ := an.FieldOf(v)
 		return f == name
 	}
-	isViperRoot := func(v ssa.Value) bool {
-		call, ok := v.(*ssa.Call)
-		if !ok || call.Call.StaticCallee() == nil || call.Call.StaticCallee().String() != "github.com/spf13/viper.GetString" {
-			return false
+	var isViperRoot func(v ssa.Value) bool
+	isViperRoot = func(v ssa.Value) bool {
+		if call, ok := v.(*ssa.Call); ok && call.Call.StaticCallee() != nil && call.Call.StaticCallee().String() == "github.com/spf13/viper.GetString" {
+			return strings.Contains(an.Term(call.Call.Args[0]), "genesis-validators-root")
 		}
-		return strings.Contains(an.Term(call.Call.Args[0]), "genesis-validators-root")
+		// the value a configuration helper hands back on success
+		if rvs, ok := HelperSuccessResults(v); ok && len(rvs) > 0 {
+			for _, rv := range rvs {
+				if !isViperRoot(rv.Val) {
+					return false
+				}
+			}
+			return true
+		}
+		return false
 	}
 	gates := []struct {
 		name string
@@ -149,7 +165,7 @@ func (c *Ctx) ImportRules(prop string) {
 		for _, sk := range sinks {
 			target := sk
 			if x, path := an.Cut(an.CutQuery{From: an.Entry(F), Target: func(i ssa.Instruction) bool { return i == target },
-				AcceptEdge: func(b *ssa.BasicBlock, i int, a *an.Atom) bool { return g.acc(a) }}); x != nil {
+				AcceptEdge: c.WithSummaries(func(a *an.Atom, sub Subst) bool { return g.acc(resolveAtom(a, sub)) })}); x != nil {
 				bad = true
 				c.R.Fail(rule1, Fn(F)+":"+g.name, c.Pos(sk), "the slashing-protection store is opened or written without ["+g.name+"]: a file for another chain or format would change the database", "store touched only below ["+g.name+"]", an.PathString(c.Pos, path))
 			}
@@ -326,8 +342,19 @@ func (c *Ctx) ImportRules(prop string) {
 	// all stores to the record's fields are monotone (never lower a field after creation)
 	nst := 0
 	fns := []*ssa.Function{F}
+	inFns := map[*ssa.Function]bool{F: true}
 	for h := range raises {
-		fns = append(fns, h)
+		if !inFns[h] {
+			inFns[h] = true
+			fns = append(fns, h)
+		}
+	}
+	// helpers of the command's own package that build or merge records on its behalf
+	for _, h := range c.StaticReach(F, 2) {
+		if h.Blocks != nil && prog.PkgPathOf(h) == prog.PkgPathOf(F) && !inFns[h] {
+			inFns[h] = true
+			fns = append(fns, h)
+		}
 	}
 	for _, fn := range fns {
 		for _, b := range fn.Blocks {
@@ -356,21 +383,36 @@ func (c *Ctx) ImportRules(prop string) {
 	// ---- O4 parse: every number recorded from the file is a validated, non-negative parse result
 	rule4 := "C10.O4 parse"
 	np := 0
-	for _, b := range F.Blocks {
-		for _, ins := range b.Instrs {
-			obj, fld, st := spFieldStore(ins)
-			if st == nil {
-				continue
-			}
-			if _, kind := raisingStore(F, st, obj, fld); kind != "guarded" {
-				continue
-			}
-			np++
-			why, path := c.validatedNumber(st.Val, F, st, 0)
-			if why != "" {
-				c.R.Fail(rule4, Fn(F)+":"+fld+"@"+c.Pos(st), c.Pos(st), "the value recorded as "+fld+" "+why, "numbers from the file are used only below [parse err == nil] and proven to lie in [0, 2^63)", path)
-			} else {
-				c.R.OK(rule4, Fn(F)+":"+fld+"@"+c.Pos(st), c.Pos(st), "recorded value is a parse result used below [err == nil] and proven non-negative / within int64")
+	for _, fn := range fns {
+		if _, isRaise := raises[fn]; isRaise {
+			continue
+		}
+		for _, b := range fn.Blocks {
+			for _, ins := range b.Instrs {
+				obj, fld, st := spFieldStore(ins)
+				if st == nil {
+					continue
+				}
+				_, kind := raisingStore(fn, st, obj, fld)
+				val := st.Val
+				switch kind {
+				case "guarded":
+				case "maxval":
+					call := st.Val.(*ssa.Call)
+					val = call.Call.Args[0]
+					if o, _ := isSPFieldLoad(val); o != nil {
+						val = call.Call.Args[1]
+					}
+				default:
+					continue
+				}
+				np++
+				why, path := c.validatedNumber(val, fn, st, 0)
+				if why != "" {
+					c.R.Fail(rule4, Fn(fn)+":"+fld+"@"+c.Pos(st), c.Pos(st), "the value recorded as "+fld+" "+why, "numbers from the file are used only below [parse err == nil] and proven to lie in [0, 2^63)", path)
+				} else {
+					c.R.OK(rule4, Fn(fn)+":"+fld+"@"+c.Pos(st), c.Pos(st), "recorded value is a parse result used below [err == nil] and proven non-negative / within int64")
+				}
 			}
 		}
 	}
